@@ -73,7 +73,7 @@ type Check struct {
 	Spec    Spec
 	Plan    func(tier string) Plan
 	Worker  func(w *WorkerCtx)
-	OnCrash func(c Crash, res *Result) // nil: any crash is inconclusive
+	OnCrash func(c Crash, res *Result) // nil: a panic inside the code under test is a violation (crash/<frame>), any other abnormal end is inconclusive
 	// PostBatch, when set, inspects the working directory of a finished worker (e.g. sanitizer logs) before it is removed.
 	// ExitOK lists worker exit codes that are not crashes (e.g. 66: the race detector's exit code).
 	PostBatch func(batch int, dir string, res *Result)
@@ -198,8 +198,8 @@ func RunParent(c *Check, tier string, seed int64) int {
 			if c.OnCrash != nil {
 				c.OnCrash(cr, total)
 			} else {
-				total.Inconc(fmt.Sprintf("batch %d: worker ended abnormally (timeout=%v exit=%d): %s; last mark: %s",
-					b, timedOut, cr.ExitCode, CrashHeadline(cr.Stderr), cr.LastMark))
+				// default: a panic raised by the code under test is a violation, everything else is inconclusive
+				RepoCrashIsViolation(c.Spec.Prop)(cr, total)
 			}
 			// keep the crash output for inspection
 			keep := filepath.Join(VerifDir, "replays", c.Spec.Prop)
@@ -322,4 +322,54 @@ func TopRepoFrame(stderr string) string {
 		return m[1]
 	}
 	return "unknown"
+}
+
+// PanicInRepo reports whether the crash output shows a panic whose innermost non-runtime frame is a function of the
+// repository under test (and not of the harness): the code under test crashed on its own.
+func PanicInRepo(stderr string) bool {
+	idx := strings.Index(stderr, "panic:")
+	if idx < 0 {
+		idx = strings.Index(stderr, "fatal error:")
+	}
+	if idx < 0 {
+		return false
+	}
+	rest := stderr[idx:]
+	g := strings.Index(rest, "\ngoroutine ")
+	if g < 0 {
+		return false
+	}
+	lines := strings.Split(rest[g+1:], "\n")
+	for _, l := range lines[1:] {
+		if l == "" {
+			break
+		}
+		if strings.HasPrefix(l, "\t") || strings.HasPrefix(l, " ") {
+			continue // file:line of the frame above
+		}
+		if strings.HasPrefix(l, "panic(") || strings.HasPrefix(l, "runtime.") || strings.HasPrefix(l, "runtime/") || strings.HasPrefix(l, "sync.") || strings.HasPrefix(l, "sync/") || strings.HasPrefix(l, "internal/") {
+			continue
+		}
+		return strings.HasPrefix(l, "github.com/bartossh/Computantis/src/")
+	}
+	return false
+}
+
+// RepoCrashIsViolation is an OnCrash handler for checks that drive the ledger: a panic raised by the code under test
+// itself ends every guarantee the property gives for that node; anything else stays inconclusive.
+func RepoCrashIsViolation(prop string) func(c Crash, res *Result) {
+	return func(c Crash, res *Result) {
+		if !c.TimedOut && PanicInRepo(c.Stderr) {
+			res.Violate(prop, "crash/"+TopRepoFrame(c.Stderr), "the code under test panicked during the workload: "+CrashHeadline(c.Stderr), map[string]any{"marks": c.Marks})
+			return
+		}
+		res.Inconc(fmt.Sprintf("batch %d: worker ended abnormally (timeout=%v): %s; last mark: %s", c.Batch, c.TimedOut, CrashHeadline(c.Stderr), lastMark(c.Marks)))
+	}
+}
+
+func lastMark(m []string) string {
+	if len(m) == 0 {
+		return ""
+	}
+	return m[len(m)-1]
 }
